@@ -44,6 +44,8 @@ def values_part(ck, tier):
     rng = np.random.default_rng(seed() + 13)
     cases = explore(ck, "values", 4 if tier == "quick" else 5, "MCCa", "MCKa", "kde_values")
     cases += explore(ck, "values", 2, "MCCa", "MCKb", "kde_values_wide_bandwidth")
+    # two clusters separated by an empty stretch of many bandwidths (evaluation points inside the gap)
+    cases += explore(ck, "gap", 12 if tier == "quick" else 16, "MCCa", "MCKg", "kde_values_gap")
     for c in cases:
         hs, k = c["hs"], c["k"]
         sample = expand(hs)
